@@ -53,6 +53,10 @@ CHECKS = {
    text="Theorems for every failure oracle and every numeric trajectory (arbitrary LoopOps): iter<=max_iter, the first failure only enables refinement, regularisation raised at most max_factor_retires consecutive times, NUMERICS only with refinement on and retries exhausted (main loop and initial loop), SOLVED still implies the termination test. Tie B: with the fault-injection hook every failure mask over the first K factorisation calls (K=8 quick, 14 thorough) and random burst/sparse/late patterns are run on real double solvers; the Lean skeleton reproduces every control state bit for bit; finiteness, certificates and '<=3 transient failures still SOLVED' are evaluated on the implementation.",
    design_ref="§6 C12", technique="Lean 4 proof (state machine, all oracles) + exhaustive fault-mask runs with bit-exact trace replay",
    note="'transient failures do not prevent convergence' is monitored (numerical behaviour), not proved"),
+ "C14": dict(category="proof",
+   text="Spec-level theorems on the dense Schur-complement recursions the model uses for LDL'/LL' (permutation round trip; LDL' correctness theorems are being added) + exhaustive exact correspondence of the pattern-dependent code: sparse::LDLt (elimination tree, symbolic column counts, numeric up-looking factorisation, solves) on ALL upper-triangular patterns with full diagonal for n<=5 x quasi-definite value sets incl. exact zero-pivot-inducing ones x all permutations n<=4, random larger patterns; dense LDLTNoPivot Lower/Upper across the blocking threshold; permute_sparse_symmetric_matrix with its value-index map, transpose_no_allocation, pre/post_mult_diagonal and AMD consistency. Because pivot-free LDL' factors are unique, equality of L and D with the model is 'L D L' = A' on those inputs.",
+   design_ref="§6 C14", technique="Lean 4 spec-level proof + exhaustive exact-rational correspondence of the pattern-dependent kernels",
+   note="the refinement sparse symbolic/numeric code -> spec is carried by the exhaustive tie (n<=5) and random patterns, not by a theorem; Eigen AMD only checked for consistency"),
  "C15": dict(category="proof",
    text="Theorems: with InvCoherent (each inverse scaling is the inverse on the active range) every scale_*/unscale_* pair proved so far (primal, dual eq/ineq/lb, slack lb, cost) are mutual inverses; init is coherent. Tie: after setup and after every update of histories over preconditioner_iter in {0,1,2,3,10} x scale_cost x dense/sparse x all transitions between bound patterns (reuse or not), the Lean predicate precondFails checks on the state (compared exactly with the implementation's, incl. the private scaling vectors) that the scaled data equal the user's data transformed by the reported scalings and that every inverse is an inverse on the active indices.",
    design_ref="§6 C15", technique="Lean 4 proof (scaling algebra) + exact white-box correspondence with a change-of-variables predicate",
